@@ -26,6 +26,8 @@ CLASS_TEXT = {
     "indent": "  // @sha256 " + V1,
     "empty": "",
     "code": "fn f() {}",
+    "block": "/* Licensed under MIT. */",
+    "slash1": "/",
 }
 REMAINDER = {"v1": V1, "v2": V2, "prefix+v1": "// @sha256 " + V1, "": ""}
 
